@@ -75,10 +75,7 @@ def run(rep, tier):
                 continue
             inst = "%s | %s" % (db.label, f["full"][:150])
             nm = f["n"]
-            if nm == CB + "::move_obj":
-                owners.check_move_obj(rep, "C13", db, f, inst)
-                n["move"] += 1
-            elif nm == CB + "::sandbox_callback" and len(f["params"]) == 1 and (f["params"][0]["t"] or {}).get("ref") == "r":
+            if owners.is_transfer_member(f, CB):
                 owners.check_move_obj(rep, "C13", db, f, inst)
                 n["move"] += 1
             elif nm == CB + "::operator=":
@@ -103,7 +100,7 @@ def run(rep, tier):
                           "element: the order the search relies on is destroyed and a registered function can be registered a second time", style.get("removal_loc", ""), label)
         elif style.get("search") and style.get("removal"):
             rep.ok("R-C13-register", SB + " [search/removal agreement]", "duplicate search '%s' is compatible with removal '%s'" % (style["search"], style["removal"]), label)
-    floors = {"move": 6, "assign": 3, "release": 6, "register": 6, "unregister": 3, "refuse": 4, "unique": 3}
+    floors = {"move": 3, "assign": 3, "release": 6, "register": 6, "unregister": 3, "refuse": 4, "unique": 3}
     for k, v in floors.items():
         rep.require(n[k] >= v, "only %d instances for rule group '%s' (floor %d)" % (n[k], k, v))
     rep.extra["instances"] = n
